@@ -135,7 +135,12 @@ fn class_of(out: &Value) -> String {
         .as_array()
         .map(|a| a.iter().any(|o| o.as_str().unwrap_or("").ends_with("_bounded_left_unbounded_right")))
         .unwrap_or(false);
-    format!("{base}|{}", if mixed { "slice has a join typed Bounded over an Unbounded operand" } else { "no mixed-boundedness join in slice" })
+    if mixed {
+        // one root cause whatever the kind of the output that shows it
+        "slice has a join typed Bounded over an Unbounded operand".to_string()
+    } else {
+        format!("{base}|no mixed-boundedness join in slice")
+    }
 }
 
 // ------------------------------------------------------------------------------------------------
